@@ -16,10 +16,11 @@ import (
 
 	"verif/internal/ev"
 	"verif/internal/gen"
+	"verif/internal/libbuild"
 	"verif/internal/model"
 )
 
-const rule = "cases: signed structures built by the independent model and signed with stdlib crypto - RouterInfo (Ed25519, DSA, P-256, P-384 identities), LeaseSet (DSA incl. NULL certificate, P-256, P-384, Ed25519, RedDSA), LeaseSet2 / MetaLeaseSet (library-documented layout) / EncryptedLeaseSet with and without offline block (identity types as above, transient types 0,1,2,7,11), standalone OfflineSignature - x adversarial derivations: genuine; offline block with a random signature; offline block signed by another key of the identity's type (transplanted from another identity); outer signature random or made by an attacker key; 1-3 byte-level edits (bit flips, byte sets, 2-byte field +-k, insertions, deletions, truncation, appended data) aimed at header, length, count, flag and key fields or anywhere. Oracle: if the library parses the derived bytes and reports success, then (i) the strict model decodes exactly the consumed bytes, (ii) the outer signature verifies (crypto/ed25519, crypto/ecdsa, crypto/dsa) over prefix || consumed[:-sig] under the identity key, or under the transient key if flag bit 0 is set AND the offline block's signature verifies over expires||type||key under the identity key (blinded key for EncryptedLeaseSet). Non-trivial: the derived input is not genuine and still parses; distinct by input bytes."
+const rule = "cases: signed structures built by the independent model and signed with stdlib crypto - RouterInfo (Ed25519, DSA, P-256, P-384 identities), LeaseSet (DSA incl. NULL certificate, P-256, P-384, Ed25519, RedDSA), LeaseSet2 / MetaLeaseSet (library-documented layout) / EncryptedLeaseSet with and without offline block (identity types as above, transient types 0,1,2,7,11), standalone OfflineSignature - (one base in three is instead built and signed by the library's own constructors, so that a verifier that is lenient in the same way as the signer is exposed by the edits) x adversarial derivations: genuine; offline block with a random signature; offline block signed by another key of the identity's type (transplanted from another identity); outer signature random or made by an attacker key; 1-3 byte-level edits (bit flips, byte sets, 2-byte field +-k, insertions, deletions, truncation, appended data) aimed at header, length, count, flag and key fields or anywhere. Oracle: if the library parses the derived bytes and reports success, then (i) the strict model decodes exactly the consumed bytes, (ii) the outer signature verifies (crypto/ed25519, crypto/ecdsa, crypto/dsa) over prefix || consumed[:-sig] under the identity key, or under the transient key if flag bit 0 is set AND the offline block's signature verifies over expires||type||key under the identity key (blinded key for EncryptedLeaseSet). Non-trivial: the derived input is not genuine and still parses; distinct by input bytes."
 
 func TestMain(m *testing.M) { ev.Main(m, "C05", rule) }
 
@@ -32,6 +33,9 @@ type Case struct {
 	ELS  *gen.ELSSpec        `json:"els,omitempty"`
 	// SigMode: 0 genuine outer signature, 1 random bytes, 2 made by an attacker key of the same type
 	SigMode int `json:"sig_mode"`
+	// LibSigned: the base is built and signed by the library's own constructor
+	// (then edited); catches a verifier that is lenient in the same way the signer is
+	LibSigned bool `json:"lib_signed,omitempty"`
 	// byte-level edits applied to the encoding: [kind, pos, val]
 	Edits [][3]int `json:"edits,omitempty"`
 	// standalone offline signature: key handed to VerifySignature: 0 the right one, 1 another key, 2 wrong length
@@ -90,6 +94,52 @@ func applyEdits(b []byte, edits [][3]int) []byte {
 	return b
 }
 
+// base returns the bytes of the (possibly attacker-signed) structure before edits.
+func libBase(c Case) ([]byte, bool) {
+	if !c.LibSigned || c.SigMode != 0 {
+		return nil, false
+	}
+	var b []byte
+	var err error
+	switch c.Kind {
+	case "ri":
+		if c.RI.Ident.SigType != 7 || c.RI.Ident.NullCert {
+			return nil, false
+		}
+		b, err = libbuild.RouterInfo(*c.RI)
+	case "ls":
+		if t := c.LS.Dest.SigType; t != 7 && t != 11 && t != 0 {
+			return nil, false
+		}
+		b, err = libbuild.LeaseSet(*c.LS)
+	case "ls2":
+		h := c.LS2.Header
+		if t := h.Dest.SigType; (t != 7 && t != 11) || h.Dest.NullCert || len(c.LS2.Leases) == 0 {
+			return nil, false
+		}
+		if h.Offline != nil && (h.Offline.Forge != 0 || (h.Offline.TType != 7 && h.Offline.TType != 11 && h.Offline.TType != 0)) {
+			return nil, false
+		}
+		for _, k := range c.LS2.Keys {
+			if n, ok := model.EncPubLen[k.Type]; ok && k.Len >= 0 && k.Len != n {
+				return nil, false
+			}
+		}
+		b, err = libbuild.LS2(*c.LS2)
+	case "els":
+		if (c.ELS.SigType != 7 && c.ELS.SigType != 11) || (c.ELS.Offline != nil && (c.ELS.Offline.Forge != 0 || (c.ELS.Offline.TType != 7 && c.ELS.Offline.TType != 11))) {
+			return nil, false
+		}
+		b, err = libbuild.ELS(*c.ELS)
+	default:
+		return nil, false
+	}
+	if err != nil {
+		return nil, false
+	}
+	return b, true
+}
+
 func attackerSig(t int, seed uint64, msg []byte, mode int) []byte {
 	if mode == 2 {
 		if k := model.NewSignKey(t, seed^0xa77ac); k != nil {
@@ -108,7 +158,7 @@ func check(c Case, r *ev.Rec) error {
 		if c.SigMode != 0 {
 			m.Sig = attackerSig(m.Ident.SigType, c.RI.Ident.KeySeed, m.SignedPart(), c.SigMode)
 		}
-		in = applyEdits(m.Encode(), c.Edits)
+		in = applyEdits(orLib(c, r, m.Encode()), c.Edits)
 		info, rem, err := router_info.ReadRouterInfo(in)
 		if err != nil {
 			r.Class("ri:unparseable")
@@ -125,7 +175,7 @@ func check(c Case, r *ev.Rec) error {
 		if c.SigMode != 0 {
 			m.Sig = attackerSig(m.Dest.SigType, c.LS.Seed, m.SignedPart(), c.SigMode)
 		}
-		in = applyEdits(m.Encode(), c.Edits)
+		in = applyEdits(orLib(c, r, m.Encode()), c.Edits)
 		ls, err := lease_set.ReadLeaseSet(in)
 		if err != nil {
 			r.Class("ls:unparseable")
@@ -141,7 +191,7 @@ func check(c Case, r *ev.Rec) error {
 			m.Sig = attackerSig(m.OuterSigType(), c.LS2.Header.Dest.KeySeed, m.SignedPart(), c.SigMode)
 		}
 		_ = outer
-		in = applyEdits(m.Encode(), c.Edits)
+		in = applyEdits(orLib(c, r, m.Encode()), c.Edits)
 		ls, rem, err := lease_set2.ReadLeaseSet2(in)
 		if err != nil {
 			r.Class("ls2:unparseable")
@@ -181,7 +231,7 @@ func check(c Case, r *ev.Rec) error {
 		if c.SigMode != 0 {
 			m.Sig = attackerSig(m.OuterSigType(), c.ELS.KeySeed, m.SignedPart(), c.SigMode)
 		}
-		in = applyEdits(m.Encode(), c.Edits)
+		in = applyEdits(orLib(c, r, m.Encode()), c.Edits)
 		ls, rem, err := encrypted_leaseset.ReadEncryptedLeaseSet(in)
 		if err != nil {
 			r.Class("els:unparseable")
@@ -230,6 +280,14 @@ func check(c Case, r *ev.Rec) error {
 		return verdict(c, r, "OfflineSignature.VerifySignature", success, auth, genuine, id.SigType == 7 || id.SigType == 11, in, derr)
 	}
 	return nil
+}
+
+func orLib(c Case, r *ev.Rec, modelBytes []byte) []byte {
+	if b, ok := libBase(c); ok {
+		r.Class(c.Kind + ":base-signed-by-library")
+		return b
+	}
+	return modelBytes
 }
 
 func headerAuthentic(h model.Header, storeType byte, cons, sig []byte) bool {
@@ -331,6 +389,7 @@ func genCase(t *rapid.T) Case {
 		c.OffKey = rapid.SampledFrom([]int{0, 0, 1, 2}).Draw(t, "offkey")
 	}
 	c.SigMode = rapid.SampledFrom([]int{0, 0, 0, 1, 2}).Draw(t, "sigmode")
+	c.LibSigned = rapid.IntRange(0, 2).Draw(t, "libsigned") == 0
 	if rapid.IntRange(0, 3).Draw(t, "edit") > 0 {
 		c.Edits = editsG(t, rapid.IntRange(1, 3).Draw(t, "nedits"), hotOffsets)
 	}
@@ -341,4 +400,16 @@ var prop = &ev.Prop[Case]{Sub: "soundness", Quick: 240000, Thorough: 2000000, Ge
 
 func TestRegress(t *testing.T) { prop.Regress(t) }
 func TestReplay(t *testing.T)  { prop.Replay(t) }
-func TestProp(t *testing.T)    { prop.Run(t) }
+func TestProp(t *testing.T) {
+	// the soundness oracle is vacuous for a kind whose genuine bases never verify
+	for _, k := range []string{"ri", "ls", "ls2", "meta", "els", "offline"} {
+		ev.R().Floor(k+":genuine-verified", 20)
+	}
+	for _, k := range []string{"ri", "ls", "ls2", "els"} {
+		ev.R().Floor(k+":base-signed-by-library", 20)
+	}
+	ev.R().Floor("ls2:offline", 50)
+	ev.R().Floor("els:offline", 50)
+	ev.R().Floor("meta:offline", 50)
+	prop.Run(t)
+}
